@@ -20,7 +20,7 @@ type Block struct {
 	Hi   int64  `json:"hi"`
 }
 
-const ntRule = "non-trivial evaluation = some argument is at or next to (distance <= 1) an extreme of its type or a power of ten +-10^k " +
+const ntRule = "one block in 8 is also run as 4 parallel independent copies; non-trivial evaluation = some argument is at or next to (distance <= 1) an extreme of its type or a power of ten +-10^k " +
 	"(so 0, +-1, +-2, 9, 10, 11, ... count); block cases report the number of such evaluations inside the block (distinct by construction)"
 
 var blockTypes = map[string]tinfo{
@@ -408,6 +408,7 @@ var specSingle = pbt.Register(&pbt.Spec[Block]{
 		enumBlocks([]string{"int8", "uint8", "int16", "uint16", "myInt8", "myUint8", "myInt16", "myUint16", "methInt8"}, fns1, 4096, nil, shard, shards, yield)
 	},
 	Run: RunBlock, Exhaustive: true,
+	Replicas: 4, ReplicaEvery: 8,
 })
 
 var specPairs = pbt.Register(&pbt.Spec[Block]{
@@ -418,6 +419,7 @@ var specPairs = pbt.Register(&pbt.Spec[Block]{
 		enumBlocks([]string{"int8", "uint8", "myInt8", "myUint8", "methInt8"}, fns2, 32, nil, shard, shards, yield)
 	},
 	Run: RunBlock, Exhaustive: true,
+	Replicas: 4, ReplicaEvery: 8,
 })
 
 var specTriples = pbt.Register(&pbt.Spec[Block]{
@@ -429,6 +431,7 @@ var specTriples = pbt.Register(&pbt.Spec[Block]{
 		enumBlocks([]string{"int8", "uint8"}, fns3, 8, nil, shard, shards, yield)
 	},
 	Run: RunBlock, Exhaustive: true,
+	Replicas: 4, ReplicaEvery: 8,
 })
 
 var specSweep32 = pbt.Register(&pbt.Spec[Block]{
@@ -451,4 +454,5 @@ var specSweep32 = pbt.Register(&pbt.Spec[Block]{
 		enumBlocks([]string{"int32", "uint32"}, []string{"Abs", "Digits10", "DigitsSign10", "Clamp01"}, 65536, keep, shard, shards, yield)
 	},
 	Run: RunBlock, Exhaustive: true,
+	Replicas: 4, ReplicaEvery: 8,
 })
